@@ -455,22 +455,37 @@ let psec_check line =
 (* ---- ropt: runner-level options of a fresh process.  "r #R F:.. E:.. P:.. Q:.."; in F and E the values of mn/mx are
    decimal text "T<text>" (they go through ParsedSeconds), in P and Q nanoseconds -> shown options + "#N min max" ---- *)
 exception Rejected
+(* A value "X<text>" is text the option's value parser refuses (e.g. sample-count "abc"); "T<text>" for mn/mx is decimal
+   text.  Only a value that is actually used is ever parsed. *)
 let ropt_fields spec : options =
   let conv kv =
-    if String.length kv > 4 && (String.sub kv 0 4 = "mn=T" || String.sub kv 0 4 = "mx=T") then begin
-      let text = unsp (String.sub kv 4 (String.length kv - 4)) in
-      match decimal_nanos (str text) with
-      | Some (s, n) -> String.sub kv 0 3 ^ string_of_n (N.add (N.mul s (n_of_string "1000000000")) n)
-      | None -> raise Rejected
-    end else kv in
+    match String.index_opt kv '=' with
+    | Some i when i + 1 < String.length kv && kv.[i + 1] = 'X' -> raise Rejected
+    | _ ->
+      if String.length kv > 4 && (String.sub kv 0 4 = "mn=T" || String.sub kv 0 4 = "mx=T") then begin
+        let text = unsp (String.sub kv 4 (String.length kv - 4)) in
+        match decimal_nanos (str text) with
+        | Some (s, n) -> String.sub kv 0 3 ^ string_of_n (N.add (N.mul s (n_of_string "1000000000")) n)
+        | None -> raise Rejected
+      end else kv in
   parse_fields (String.concat "," (List.map conv (List.filter (fun x -> x <> "") (String.split_on_char ',' spec))))
+
+let key_of kv = match String.index_opt kv '=' with Some i -> String.sub kv 0 i | None -> kv
+
+(* clap looks at the DIVAN_* variable of an option only when the option's flag is absent: a variable shadowed by a
+   flag is neither used nor validated *)
+let unshadowed_env flags env =
+  let fkeys = List.map key_of (List.filter (fun x -> x <> "") (String.split_on_char ',' flags)) in
+  String.concat "," (List.filter (fun kv -> kv <> "" && not (List.mem (key_of kv) fkeys)) (String.split_on_char ',' env))
 
 let ropt_gen use_spec line =
   let secs = sections line in
   let src = List.map split_kv (nonempty (section secs "R")) in
+  let raw k = match List.assoc_opt k src with Some s -> s | None -> "" in
   try
-    let get k = match List.assoc_opt k src with Some s -> ropt_fields s | None -> o_default in
-    let runner = (if use_spec then spec_runner else runner_level) (get "P") (get "F") (get "E") (get "Q") in
+    let flags = ropt_fields (raw "F") in
+    let env = ropt_fields (unshadowed_env (raw "F") (raw "E")) in
+    let runner = (if use_spec then spec_runner else runner_level) (ropt_fields (raw "P")) flags env (ropt_fields (raw "Q")) in
     let (mn, mx) = time_limits runner in
     show_options runner ^ " #N " ^ string_of_n mn ^ " " ^ string_of_n mx
   with Rejected -> "rejected"
